@@ -496,7 +496,7 @@ func connectiveC11(c *Ctx) {
 	}
 	for k, w := range want {
 		key := "RewriteRegexConditions$lit: branch " + k
-		if got[k].newOp == "" && got[k].concat == "" {
+		if got[k].newOp == "" || got[k].concat == "" {
 			c.Unk("C11.connective", key, lit.Pos(), "the operator/connective choice is not an if/else that assigns both: not extracted")
 			continue
 		}
